@@ -290,15 +290,26 @@ def kvGet (k : String) (ws : List String) : Option String :=
 
 `case <name> kind=acc max=<n|default> tmo=<ms|default>`; ops `ready`, `call <r|o> <r13|r12|o13|o12>`,
 `poll k`, `drop k`, `cflight k full|part|rest`, `garbage k <kind>`, `close k`, `advance ms`, `run ms`,
-`echo k n seed`.  Virtual time in ms. -/
+`echo k n seed`, `xfer k <s2c|c2s|both> n seed cap rchunk <d|b> <all|chunk|cflush|vec> <flush|shut> <exact|small>`
+(payload over an accepted stream through a back-pressuring / short-reading / buffering transport; the
+pass-through model answers `ok`; after `shut` the connection carries no further payload),
+`rdy k <r|p> <r|p>` (the transport's read/write readiness answers, passed through unchanged).
+Virtual time in ms. -/
 
 instance : Inhabited ActixNet.Tls.Conn := ⟨{}⟩
+
+def canonNat (s : String) : Option Nat :=
+  match s.toNat? with
+  | some n => if toString n == s then some n else none
+  | none => none
 
 open ActixNet.Tls in
 structure AccCase where
   svc : Svc
   conns : Array Conn := #[]
   results : Array (Option Outcome) := #[]
+  /-- connections whose stream was shut down by a transfer -/
+  fin : Array Bool := #[]
   now : Nat := 0
 
 namespace AccCase
@@ -315,6 +326,10 @@ def deadline (c : AccCase) (k : Nat) : Nat :=
   match c.svc.futs k with
   | .alive d => d
   | _ => 0
+
+/-- connection `k` has an accepted stream that has not been shut down -/
+def usable (c : AccCase) (k : Nat) : Bool :=
+  k < c.results.size && c.results[k]! == some Outcome.ok && !(c.fin[k]?.getD false)
 
 /-- poll future `k` (must be alive) -/
 def pollOne (c : AccCase) (k : Nat) : AccCase × Option Outcome :=
@@ -360,7 +375,7 @@ def step (c : AccCase) (ws : List String) : AccCase × String :=
     ({ c with svc := svc' }, if a then "ready" else "pending")
   | ["call", lib, cli] =>
     if (lib == "r" || lib == "o") && (cli == "r13" || cli == "r12" || cli == "o13" || cli == "o12") then
-      ({ c with svc := c.svc.call c.now, conns := c.conns.push {}, results := c.results.push none }, s!"ok {c.conns.size}")
+      ({ c with svc := c.svc.call c.now, conns := c.conns.push {}, results := c.results.push none, fin := c.fin.push false }, s!"ok {c.conns.size}")
     else (c, "bad-op")
   | ["poll", k] =>
     match k.toNat? with
@@ -424,16 +439,29 @@ def step (c : AccCase) (ws : List String) : AccCase × String :=
   | ["echo", k, n, seed] =>
     match k.toNat?, n.toNat?, seed.toNat? with
     | some k, some n, some _ =>
-      if k < c.results.size && c.results[k]! == some Outcome.ok && n ≤ 1048576 then (c, "ok") else (c, "bad-op")
+      if c.usable k && n ≤ 1048576 then (c, "ok") else (c, "bad-op")
     | _, _, _ => (c, "bad-op")
+  | ["xfer", k, dir, n, seed, cap, rc, tb, w, fin, r] =>
+    match k.toNat?, canonNat n, canonNat seed, canonNat cap, canonNat rc with
+    | some k, some n, some seed, some cap, some rc =>
+      if c.usable k && n ≤ 1048576 && seed < 18446744073709551616 && cap ≤ 4194304 && rc ≤ 4194304
+          && (dir == "s2c" || dir == "c2s" || dir == "both") && (tb == "d" || tb == "b")
+          && (w == "all" || w == "chunk" || w == "cflush" || w == "vec")
+          && (fin == "flush" || fin == "shut") && (r == "exact" || r == "small") then
+        -- a pass-through stream delivers every byte whatever the transport's pace: the observation is `ok`
+        ({ c with fin := if fin == "shut" then c.fin.set! k true else c.fin }, "ok")
+      else (c, "bad-op")
+    | _, _, _, _, _ => (c, "bad-op")
+  | ["rdy", k, a, b] =>
+    match k.toNat? with
+    | some k =>
+      if c.usable k && (a == "r" || a == "p") && (b == "r" || b == "p") then
+        (c, s!"rd={if a == "p" then "pending" else "ready"} wr={if b == "p" then "pending" else "ready"}")
+      else (c, "bad-op")
+    | none => (c, "bad-op")
   | _ => (c, "bad-op")
 
 end AccCase
-
-def canonNat (s : String) : Option Nat :=
-  match s.toNat? with
-  | some n => if toString n == s then some n else none
-  | none => none
 
 def parseAccHeader (rest : List String) : Option AccCase :=
   if rest.length != 3 || kvGet "kind" rest != some "acc" then none else
